@@ -312,3 +312,57 @@ Example num_q_examples :
   (num_q (L "12.50e-1") == 5 # 4)%Q /\ (src_num_q (L "0x1F") == 31 # 1)%Q /\ (num_q (L "0.5") == src_num_q (L "000.5"))%Q
   /\ num_parts (normalize_number (L ".5E3")) = (5%N, 1, 3%Z).
 Proof. repeat split; vm_compute; reflexivity. Qed.
+
+(** ** the accessors of number literals (IsInteger / IsFloat / Uint64) agree with the spelling *)
+From PQL Require Import Spec.SqlLex Proofs.SqlGlue.
+
+Lemma contains_any_false_in cs s c : contains_any cs s = false -> In c s -> existsb (N.eqb c) cs = false.
+Proof.
+  unfold contains_any. intros H Hin. destruct (existsb (N.eqb c) cs) eqn:E; [|reflexivity].
+  assert (existsb (fun c0 => existsb (N.eqb c0) cs) s = true) by (apply existsb_exists; exists c; split; assumption). congruence.
+Qed.
+
+Lemma in_skipn {A} (x : A) k l : In x (skipn k l) -> In x l.
+Proof. revert l. induction k as [|k IH]; intros [|y l] H; cbn [skipn] in H; try exact H; [right; apply IH; exact H]. Qed.
+
+(** a number spelling (as the dialect and the scanner accept them) without '.', 'e', 'E' is a
+    non-empty run of decimal digits *)
+Lemma num_text_integer v : is_num_text v = true -> contains_any [46; 101; 69]%N v = false ->
+  forallb is_digit v = true /\ v <> [].
+Proof.
+  unfold is_num_text. intros H Hc. apply andb_prop in H as [H _]. apply andb_prop in H as [Hlen Hhd]. apply Nat.eqb_eq in Hlen.
+  split; [|destruct v; [discriminate|discriminate]].
+  pose proof (take_while_prefix is_digit v) as Hp. pose proof (take_while_all is_digit v) as Ha.
+  set (d1 := length (take_while is_digit v)) in *.
+  unfold number_len in Hlen. fold d1 in Hlen.
+  destruct (skipn d1 v) as [|c r] eqn:Es.
+  - (* nothing after the digits *)
+    assert (d1 = length v \/ d1 < length v)%nat as [E|E] by (unfold d1; pose proof (take_while_length is_digit v); lia).
+    + rewrite E, firstn_all in Hp. rewrite Hp. exact Ha.
+    + exfalso. assert (length (skipn d1 v) = length v - d1)%nat by apply skipn_length. rewrite Es in H. cbn [length] in H. lia.
+  - (* a character after the digits: it is not a digit; the length equation forces '.', 'e' or 'E' *)
+    exfalso.
+    assert (Hin : In c v) by (apply (in_skipn c d1); rewrite Es; left; reflexivity).
+    pose proof (contains_any_false_in _ _ c Hc Hin) as Hne. cbn [existsb] in Hne.
+    assert (Hc46 : (c =? 46)%N = false) by lia. assert (Hce : ((c =? 101) || (c =? 69))%N = false) by lia.
+    rewrite Hc46 in Hlen. cbn [Nat.eqb andb] in Hlen.
+    destruct (Nat.eqb d1 0) eqn:Ed; cbn [andb] in Hlen.
+    + apply Nat.eqb_eq in Ed. destruct v; [discriminate|]. cbn [length] in Hlen. lia.
+    + cbn [skipn] in Hlen. rewrite Hce in Hlen.
+      assert (length (skipn d1 v) = length v - d1)%nat by apply skipn_length. rewrite Es in H. cbn [length] in H. lia.
+Qed.
+
+Theorem number_accessors s t : In t (scan s) -> tkind t = KNumber ->
+  lit_is_float KNumber (tvalue t) = negb (lit_is_integer KNumber (tvalue t)) /\
+  (lit_is_integer KNumber (tvalue t) = true ->
+     num_parts (tvalue t) = (dec_value (tvalue t), 0%nat, 0%Z) /\
+     lit_uint64 KNumber (tvalue t) = Some (if (dec_value (tvalue t) <? two64)%N then dec_value (tvalue t) else 0%N)).
+Proof.
+  intros Hin Hk. split; [unfold lit_is_integer; destruct (lit_is_float KNumber (tvalue t)); reflexivity|].
+  intros Hi. unfold lit_is_integer in Hi. apply Bool.negb_true_iff in Hi.
+  pose proof (scan_tok_ok s) as Hok. unfold all_tok_ok in Hok. rewrite Forall_forall in Hok. destruct (Hok t Hin) as [Hn _]. specialize (Hn Hk).
+  assert (Hc : contains_any [46; 101; 69]%N (tvalue t) = false) by exact Hi.
+  destruct (num_text_integer _ Hn Hc) as [Hd Hne].
+  split; [apply num_parts_digits; exact Hd|].
+  unfold lit_uint64. rewrite Hi, Hd. destruct (tvalue t); [congruence|]. cbn [negb andb]. destruct (_ <? two64)%N; reflexivity.
+Qed.
